@@ -136,7 +136,13 @@ func rolesSetup(s *rt.Sim, tier string) func() {
 		}
 		watch := watchConn(conn)
 		// model of the negotiated roles
-		duplex := co.ntn && co.duplex && peerDuplex
+		// full duplex needs both sides' request *and* a version that has it: node-to-node
+		// version 10 introduced duplex connections (the repository's own version table says so
+		// too: EnableFullDuplex is false for 7, 8 and 9)
+		duplex := co.ntn && co.duplex && peerDuplex && version >= 10
+		if co.ntn && co.duplex && peerDuplex && version < 10 {
+			rt.Hit("roles.duplex-requested-on-pre-duplex-version")
+		}
 		hasResponder := co.server || duplex
 		hasInitiator := !co.server || duplex
 		desc := fmt.Sprintf("local %+v, peer duplex=%v, version %d: model duplex=%v", co, peerDuplex, version, duplex)
